@@ -243,6 +243,21 @@ def check(run: Run) -> None:
             if sf.get(f'"{k}"') != f"fields.{k}":
                 run.finding("C15.f", f"make_node_error_value:{k}", f'field "{k}" must carry fields.{k}, carries {sf.get(chr(34) + k + chr(34))}', loc=NERR)
 
+    with run.obligation("C15.j", "K2", "a failure captured by the owner abandons the rest of the sub-graph's cycle: the pending wake-ups of the nodes ranked AFTER the "
+                        "failing node must still be folded into the sub-graph's next scheduled time on that exit (KNOWN FINDING F-C15-3 on the current tree)"):
+        fa = R.fn(run, "src/hgraph/runtime/graph.cpp", "evaluate_impl")
+        fl = R.flow(run, fa)
+        ev = [n for n in fl.nodes_of(R.call_is(name="evaluate", recv=r"node_view")) if fl.cfg.nodes[n].loops]
+        run.sites(len(ev), 1, "node evaluation in the scan")
+        fold = R.store_is(r".*\.next_scheduled_time", r"(?!MAX_DT).*")
+        R.require_nodes(run, fl, fold, "next_scheduled_time accumulation")
+        w = fl.must_follow(lambda x: x.id in ev, fold, exits="exc", first_edge=lambda lab: lab == "eh")
+        run.count(1, "C15.j")
+        if w is not None:
+            run.finding("C15.j", "evaluate_impl:failed-scan-drops-later-schedules", "when a node evaluation throws the scan is left without folding the schedules of the "
+                        "nodes not yet visited into next_scheduled_time: after the owner captured the error, an independent self-scheduling node ranked after "
+                        "the failing node never wakes again: " + fl.path_text(w), loc=fl.cfg.describe(w[0][0]))
+
 
 VARIANTS = [
     {"id": "h-revert-fix-failed-cycle-resumed", "expect": "C15.h", "edits": [{"file": "src/hgraph/runtime/graph.cpp", "find": "      !state.evaluation_failed && state.evaluation_cursor != 0 &&\n      state.evaluation_cursor != invalid_cursor;", "replace": "      state.evaluation_cursor != 0 && state.evaluation_cursor != invalid_cursor;"}]},
